@@ -8,7 +8,7 @@ generate_facts = extract_facts.generate
 
 ID = "C01"
 LEAN_MODULES = ["Econf.Props.C01", "Econf.Props.Tie"]
-THEOREMS = ["Econf.C01_lookup", "Econf.C01_masked_ignored", "Econf.C01_main_skip_absent", "Econf.C01_main_first_present",
+THEOREMS = ["Econf.C01_lookup", "Econf.C01_masked_ignored", "Econf.C01_F14_witness", "Econf.C01_main_skip_absent", "Econf.C01_main_first_present",
             "Econf.C01_main_candidates", "Econf.C01_layer_order", "Econf.C01_dir_order", "Econf.C01_nofile", "Econf.C01_null_refused",
             "Econf.sortNames_sorted", "Econf.sortNames_perm", "Econf.Struct.tie_macros"]
 SHRINK = False
